@@ -3,7 +3,7 @@ from __future__ import annotations
 
 import ast
 
-from ..loader import AnchorError, is_self_attr, parent, short, src, walk_no_nested
+from ..loader import dotted, AnchorError, is_self_attr, parent, short, src, walk_no_nested
 from ..locks import LockAnalysis, held_at, regions
 from ..resolve import Resolver
 from ..rules import accessor_field, attr_writes, where
@@ -39,6 +39,25 @@ def run(p, led, tier):
     led.rule("C05-R3", "no statement executed while a store lock is held can acquire any store lock", 5)
     led.rule("C05-R4", "no write to the protected fields outside ATP_Store", 1)
 
+    # ---- R0 the lock is one object for the life of the store: created in the constructor, never built or rebound later
+    led.rule("C05-R0", "the store's lock is created once, in the constructor; no method builds or rebinds it later (a lazily built lock can be built twice by two first users)", 1)
+    late = []
+    for m in store.methods.values():
+        if m.name in ("__init__", "__post_init__", "__setstate__", "__deepcopy__", "__copy__"):
+            continue
+        for n in ast.walk(m.node):
+            if isinstance(n, (ast.Assign, ast.AnnAssign)) and n.value is not None and isinstance(n.value, ast.Call) and (dotted(n.value.func) or "").split(".")[-1] in ("Lock", "RLock") \
+                    and any(is_self_attr(t) for t in (n.targets if isinstance(n, ast.Assign) else [n.target])):
+                late.append((m, n))
+    if late:
+        m, n = late[0]
+        led.fail("C05-R0", f"ATP_Store.{m.name} ▸ `{short(n, 60)}`", where(m, n),
+                 "the lock is built outside the constructor: two threads making the first locked calls can each build and hold their own lock, so the critical sections no longer exclude each other",
+                 witness="fresh ATP_Store(100); two threads call consume(60) at once: both succeed, balance −20")
+        led.info("lock identity is broken; the lockset rules below are not evaluated on this tree")
+        return
+    led.ok("C05-R0", "ATP_Store ▸ lock construction sites", where(store.methods["__init__"], store.methods["__init__"].node) if "__init__" in store.methods else "operon_ai/state/metabolism.py",
+           "threading locks are assigned only in the constructor (and unpickling / copying hooks)")
     if len(la.locks) != 1:
         raise AnchorError(f"ATP_Store is expected to own exactly one threading lock attribute; found {sorted(la.locks)}")
     lock = next(iter(la.locks))
